@@ -635,3 +635,5 @@ SUBS = [
         lanes=("f64", "f32"), f32_fraction=0.25, quick_shards=2,
         rule="random devices + neighbours, cumulative apply_params history against a per-cell numpy model"),
 ]
+
+KNOWN_CLASSES = {}
